@@ -16,6 +16,7 @@ from __future__ import annotations
 
 import json
 import logging
+import os
 import random
 import re
 import threading
@@ -115,6 +116,7 @@ class Policy:
         self.p_stmt = args.get('p_stmt', 0.2)
         self.p_continue = args.get('p_continue', 0.03)
         self.use_future = args.get('future', True)
+        self.p_future = args.get('p_future', 0.7)
         self.no_decoys = args.get('no_decoys', False)
         self.lock = threading.RLock()
         self.put = None
@@ -128,6 +130,7 @@ class Policy:
         self.ndecoy = 0
         self.nlog = 0
         self.nstmt = {}
+        self.tainted = set()
         self.maxp = 0
         self.maxt = 0
         self.discards = []            # (n, p) from the 'PromptNo mismatch' warnings, in order
@@ -182,7 +185,8 @@ class Policy:
             cands = [(tt, p) for tt in self.ended] + [(tt, self.history[tt][-1]) for tt in self.ended if self.history.get(tt)]
         elif kind == 'early':
             # only to traces that are certainly blocked at an unanswered prompt: read and discarded at once
-            tgt = [t] + [tt for tt in self.pending if tt != t]
+            # (not to a trace that was sent 'future' decoys: one of them may have closed its prompt unseen)
+            tgt = [tt for tt in [t] + [x for x in self.pending if x != t] if tt not in self.tainted]
             cands = [(tt, self.maxp + self.rng.randint(1, 3)) for tt in tgt]
         elif kind == 'nonexistent':
             cands = [(t, 0), (t, -self.rng.randint(1, 9)), (t, 10 ** 6 + self.rng.randrange(100))]
@@ -227,7 +231,8 @@ class Policy:
         if gate_k is not None and resumes:
             # the thread of trace t is now inside gate(k) (or still before it): it cannot have
             # opened another prompt, so every (t, q > p) is a FUTURE prompt for certain
-            if self.use_future and not self.no_decoys and text != 'continue' and rng.random() < 0.7:
+            if self.use_future and not self.no_decoys and text != 'continue' and rng.random() < self.p_future:
+                self.tainted.add(t)
                 for d in range(1, rng.randint(1, 3) + 1):
                     self._send_decoy('future', t, p + d)
             release(gate_k)
@@ -344,7 +349,7 @@ def gen_job(rng, tier_threads: int, plain: bool = False):
     args = {'seed': rng.randrange(1 << 30), 'gate_lines': {str(k): v for k, v in gates.items()},
             'withhold': rng.choice([0.0, 0.3, 0.6, 0.9]), 'max_decoys': rng.choice([1, 2, 3, 4]),
             'p_stmt': rng.choice([0.0, 0.15, 0.3]), 'future': True, 'no_decoys': plain}
-    return {'src': src, 'form': 'str', 'trace_threads': True, 'trace_modules': False, 'timeout': 25,
+    return {'src': src, 'form': 'str', 'trace_threads': True, 'trace_modules': False, 'timeout': 8,
             'policy': {'kind': 'custom', 'module': 'harness.props.c07', 'func': 'make_policy', 'args': args}}
 
 
@@ -480,7 +485,9 @@ def _run(ctx, jobs) -> Corr:
                  'decoy responder; distinct = distinct (script, responder seed); non-trivial = at least one decoy was read and '
                  'discarded by an open prompt (PromptNo mismatch warning) and at least 2 prompts were answered')
     t0 = time.time()
-    results = child.run_jobs(jobs)
+    # VERIF_REPO: run against a scratch copy of the repository (mutation self-tests only)
+    alt = os.environ.get('VERIF_REPO')
+    results = child.run_jobs(jobs, extra_env={'PYTHONPATH': f'{alt}:{C.VERIF}'} if alt else None)
     ctx.log(f'{len(jobs)} real runs in {time.time() - t0:.1f}s')
     cases, kept = [], []
     hist_kinds: dict[str, int] = {}
@@ -563,7 +570,7 @@ def load_corpus():
 
 
 def _job_of(j):
-    return {'src': j['src'], 'form': 'str', 'trace_threads': True, 'trace_modules': False, 'timeout': 25,
+    return {'src': j['src'], 'form': 'str', 'trace_threads': True, 'trace_modules': False, 'timeout': 8,
             'policy': {'kind': 'custom', 'module': 'harness.props.c07', 'func': 'make_policy', 'args': j['policy_args']}}
 
 
